@@ -98,8 +98,11 @@ def run_job(job):
                 p = os.path.join(d, "f%02d" % i)
                 with open(p, "w"):
                     pass
-                os.utime(p, (ts, ts))
-                files["f%02d" % i] = model.local_naive(os.lstat(p).st_mtime, tz)
+                ns = ts * 1_000_000_000 + rng.choice([0, 0, 1, 500_000_000, 999_999_999, rng.randrange(1_000_000_000)])
+                os.utime(p, ns=(ns, ns))
+                files["f%02d" % i] = model.local_naive(os.lstat(p).st_mtime_ns // 1_000_000_000, tz)
+                if ns % 1_000_000_000:
+                    res.count("mtimes_with_subsecond_part")
             littext = model.quote_lit(lit) if quoted else lit
             per_op = {}
             for op in OPS:
@@ -187,5 +190,5 @@ def main(chk):
                      "relative literals are judged only if the local date did not change during the run; 75% of them run under a "
                      "controlled clock (LD_PRELOAD shim pinning CLOCK_REALTIME, fsv/native/fakeclock.c) at instants next to day edges, "
                      "month/year ends and DST switches"],
-        require={"op_prec": 36, "tz": 5, "runs_under_controlled_clock": 100},
+        require={"op_prec": 36, "tz": 5, "runs_under_controlled_clock": 100, "mtimes_with_subsecond_part": 100},
     )
